@@ -115,6 +115,17 @@ pub fn block(kind: &str, rng: &mut Rng, u: usize) -> (String, String) {
             let name = format!("{base}{u}");
             let k = rng.range(2, 4) as usize;
             let tys = ["int", "float", "uint", "float2"];
+            // half of the sets are declared first and used before they are defined
+            if rng.chance(1, 2) {
+                for ty in tys.iter().take(k) {
+                    decl.push_str(&format!("int {name}({ty} x);\n"));
+                }
+                decl.push_str(&format!(
+                    "int {name}_early(uint v) {{ return {name}((int)v) + {name}((float)v){}; }}\n",
+                    if k >= 3 { format!(" + {name}(v)") } else { String::new() }
+                ));
+                body.push_str(&format!("sink += {name}_early(2u);\n"));
+            }
             for (i, ty) in tys.iter().enumerate().take(k) {
                 decl.push_str(&format!("int {name}({ty} x) {{ return {i}; }}\n"));
             }
@@ -730,6 +741,8 @@ pub const TAILS: &[&str] = &[
             "static int step;\nstatic int uses_step = step;\n",
             "void fn_then_global() {}\nstatic int fn_then_global;\nstatic int uses_ftg = fn_then_global;\n",
             "[[rssl::bindless]] cbuffer BindlessCB { float bcb_a; }\n",
+            // methods that are each the first user of another instantiation of one function template
+            "template<typename T> T mi_ident(T x) { return x; }\nstruct MiS {\n    float m0() { return mi_ident<float>(1.0); }\n    int m1() { return mi_ident<int>(1); }\n    uint m2() { return mi_ident<uint>(1u); }\n    float2 m4() { return mi_ident<float2>(float2(1.0, 2.0)); }\n    int2 m5() { return mi_ident<int2>(int2(1, 2)); }\n    float3 m6() { return mi_ident<float3>(float3(1.0, 2.0, 3.0)); }\n};\nfloat mi_use() { MiS s; return s.m0() + (float)s.m1() + (float)s.m2() + s.m4().x + (float)s.m5().x + s.m6().x; }\n",
             // a struct with several base types: inherited members keep the order of the base list
             "struct MbA { int mb_a; };\nstruct MbB { float mb_b; };\nstruct MbC { uint mb_c; };\nstruct MbD { float2 mb_d; };\nstruct MbAll : MbA, MbB, MbC, MbD { int mb_own; };\nint mb_f(MbAll s) { return s.mb_a + (int)s.mb_b + (int)s.mb_c + (int)s.mb_d.x + s.mb_own; }\n",
             // untyped literals at the edge of what can be written, as template arguments
